@@ -31,6 +31,7 @@ type harnessSpec struct {
 	NoNative   bool    `json:"no_native"` // counterexamples cannot be replayed natively (documented why)
 	NoNativeWhy string `json:"no_native_why"`
 	Workers    int     `json:"workers"`
+	NativeASan bool    `json:"native_asan"` // native replays run under AddressSanitizer (go test -asan): C memory errors become confirmable
 }
 
 type propSpec struct {
@@ -81,10 +82,15 @@ type nativeBuilder struct {
 
 var funcRe = regexp.MustCompile(`(?m)^func (VH_[A-Za-z0-9_]+)\(\)`)
 
-func (nb *nativeBuilder) bin(pkg string) (string, error) {
-	if b, ok := nb.bins[pkg]; ok {
+func (nb *nativeBuilder) bin(pkg0 string, asan bool) (string, error) {
+	pkg := pkg0
+	key := pkg0
+	if asan {
+		key += "+asan"
+	}
+	if b, ok := nb.bins[key]; ok {
 		if b == "" {
-			return "", fmt.Errorf("%s", nb.errs[pkg])
+			return "", fmt.Errorf("%s", nb.errs[key])
 		}
 		return b, nil
 	}
@@ -136,16 +142,22 @@ func (nb *nativeBuilder) bin(pkg string) (string, error) {
 	ovf := filepath.Join(wd, "overlay_"+strings.ReplaceAll(pkg, "/", "_")+".json")
 	os.WriteFile(ovf, ovb, 0644)
 	out := filepath.Join(wd, strings.ReplaceAll(pkg, "/", "_")+".test")
-	cmd := exec.Command("go", "test", "-c", "-vet=off", "-tags", "verif", "-overlay", ovf, "-o", out, "./"+pkg)
+	goArgs := []string{"test", "-c", "-vet=off", "-tags", "verif", "-overlay", ovf}
+	if asan {
+		out = filepath.Join(wd, strings.ReplaceAll(pkg, "/", "_")+".asan.test")
+		goArgs = append(goArgs, "-asan")
+	}
+	goArgs = append(goArgs, "-o", out, "./"+pkg)
+	cmd := exec.Command("go", goArgs...)
 	cmd.Dir = nb.repo
 	cmd.Env = append(os.Environ(), "GOFLAGS=-mod=mod", "GOPROXY=off", "GOSUMDB=off", "GOTOOLCHAIN=local")
 	b, err := cmd.CombinedOutput()
 	if err != nil {
-		nb.bins[pkg] = ""
-		nb.errs[pkg] = fmt.Sprintf("native build of %s failed: %v\n%s", pkg, err, b)
-		return "", fmt.Errorf("%s", nb.errs[pkg])
+		nb.bins[key] = ""
+		nb.errs[key] = fmt.Sprintf("native build of %s failed: %v\n%s", key, err, b)
+		return "", fmt.Errorf("%s", nb.errs[key])
 	}
-	nb.bins[pkg] = out
+	nb.bins[key] = out
 	return out, nil
 }
 
@@ -159,9 +171,9 @@ type nativeResult struct {
 	Raw        string
 }
 
-func (nb *nativeBuilder) replay(pkg, replayPath string) (nativeResult, error) {
+func (nb *nativeBuilder) replay(pkg, replayPath string, asan ...bool) (nativeResult, error) {
 	var nr nativeResult
-	bin, err := nb.bin(pkg)
+	bin, err := nb.bin(pkg, len(asan) > 0 && asan[0])
 	if err != nil {
 		return nr, err
 	}
@@ -169,7 +181,7 @@ func (nb *nativeBuilder) replay(pkg, replayPath string) (nativeResult, error) {
 	defer os.RemoveAll(rd)
 	cmd := exec.Command("timeout", "120", bin, "-test.run", "^TestVerifReplay$", "-test.count=1")
 	cmd.Dir = rd
-	cmd.Env = append(os.Environ(), "VERIF_REPLAY="+replayPath, "TMPDIR="+rd)
+	cmd.Env = append(os.Environ(), "VERIF_REPLAY="+replayPath, "TMPDIR="+rd, "ASAN_OPTIONS=detect_leaks=0")
 	b, _ := cmd.CombinedOutput()
 	nr.Raw = string(b)
 	for _, line := range strings.Split(nr.Raw, "\n") {
@@ -187,7 +199,7 @@ func (nb *nativeBuilder) replay(pkg, replayPath string) (nativeResult, error) {
 			if m := regexp.MustCompile(`observes=(\d+)`).FindStringSubmatch(line); m != nil {
 				nr.ObsCount, _ = strconv.Atoi(m[1])
 			}
-		case strings.HasPrefix(line, "panic:") || strings.HasPrefix(line, "fatal error:") || strings.Contains(line, "SIGSEGV"):
+		case strings.HasPrefix(line, "panic:") || strings.HasPrefix(line, "fatal error:") || strings.Contains(line, "SIGSEGV") || strings.Contains(line, "ERROR: AddressSanitizer"):
 			if nr.Panic == "" {
 				nr.Panic = line
 			}
@@ -394,7 +406,7 @@ func runCheck(args []string) int {
 		if !*noNative && !h.NoNative {
 			for _, wtn := range r.Witnesses {
 				rp := writeReplay(*prop, h, tier, "witness", "", wtn.Model, wtn.Choices, wtn.Observes, wtn.Decisions, false)
-				nr, err := nb.replay(h.Pkg, rp)
+				nr, err := nb.replay(h.Pkg, rp, h.NativeASan)
 				os.Remove(rp)
 				if err != nil {
 					lines = append(lines, "INCONCLUSIVE native build: "+err.Error())
@@ -451,7 +463,7 @@ func runCheck(args []string) int {
 			buildErr := false
 			for _, v := range cands {
 				rp := writeReplay(*prop, h, tier, v.Label, v.Detail, v.Model, v.Choices, v.Observes, v.Decisions, true)
-				nr, err := nb.replay(h.Pkg, rp)
+				nr, err := nb.replay(h.Pkg, rp, h.NativeASan)
 				if err != nil {
 					lines = append(lines, "INCONCLUSIVE native build: "+err.Error())
 					inconclusive++
@@ -486,8 +498,8 @@ func runCheck(args []string) int {
 			rp := writeReplay(*prop, h, tier, v.Label+"_"+v.KnownID, v.Detail, v.Model, v.Choices, v.Observes, v.Decisions, !listed)
 			confirmed := true
 			if !*noNative && !h.NoNative {
-				nr, err := nb.replay(h.Pkg, rp)
-				confirmed = err == nil && (labelMatches(nr.Violations, v.Label))
+				nr, err := nb.replay(h.Pkg, rp, h.NativeASan)
+				confirmed = err == nil && (labelMatches(nr.Violations, v.Label) || (strings.HasPrefix(v.Label, "engine:") && nr.Panic != ""))
 			}
 			if listed {
 				os.Remove(rp)
